@@ -34,67 +34,94 @@ pub fn check(t: &Trace<'_>, out: &mut CaseOut) -> bool {
         for p in &s.packets {
             out.count(&format!("pkt_{}", p.pkt.type_name()), 1);
         }
-        // --- root causes around disconnect(): judged in stream order; everything after the first
+        // --- root causes around disconnect(), judged in stream order; everything after the first
         // hit is a consequence of it and is not judged again.
-        //  R2: DISCONNECT started while another packet was only partially written
-        //  R3: a cancelled disconnect() left (part of) a DISCONNECT behind and the handle kept writing
+        //  R2: a disconnect() that completed left no whole DISCONNECT at the end of what it wrote
+        //      (its bytes landed inside a packet that a cancelled operation had left incomplete)
+        //  R3: a cancelled disconnect() left (part of) a DISCONNECT behind and what the handle
+        //      wrote afterwards does not continue that packet
         let mut judged_upto = exempt_from;
         let ops_here: Vec<&OpRec> = t.log.ops.iter().filter(|o| o.conn == Some(ci.idx)).collect();
+        let disconnect_at = s.packets.iter().find(|p| matches!(p.pkt, CPacket::Disconnect { .. })).map(|p| (p.start, p.end));
         for d in ops_here.iter().filter(|o| o.kind == "disconnect" && o.out_after > o.out_before) {
             if d.out_before >= judged_upto {
                 break;
             }
             let pkt_start = s.packets.iter().map(|p| p.end).filter(|e| *e <= d.out_before).max().unwrap_or(0);
-            let mid = d.out_before > s.parsed_upto || !at_boundary(w, ci.idx, d.out_before);
+            let was_mid = d.out_before > s.parsed_upto || !at_boundary(w, ci.idx, d.out_before);
+            let whole = s.packets.iter().any(|p| p.end == d.out_after && p.start >= d.out_before.min(p.start) && matches!(p.pkt, CPacket::Disconnect { .. }));
             let mut hit = false;
-            if mid {
+            if matches!(d.outcome, Outcome::Ok(_)) && !whole {
                 let a = ops_here.iter().rev().find(|o| o.ev_ret < d.ev_call && o.out_after > o.out_before);
-                out.violations.push(viol(
-                    "C01",
-                    "C01/midpacket/DISCONNECT-inside-partial-packet",
-                    format!(
-                        "conn {}: disconnect() wrote its DISCONNECT at offset {} while the packet begun at {} (left by {} {}) was incomplete",
-                        ci.idx,
-                        d.out_before,
-                        pkt_start,
-                        a.map(|a| a.kind).unwrap_or("?"),
-                        a.map(|a| outcome_class(&a.outcome)).unwrap_or("?")
-                    ),
-                ));
-                out.key(format!("disconnect-inside/{}", a.map(|a| a.kind).unwrap_or("?")));
-                hit = true;
-            }
-            if d.outcome == Outcome::Cancelled {
-                if let Some(next) = ops_here.iter().find(|o| o.ev_call > d.ev_ret && o.out_after > o.out_before) {
+                if was_mid && a.is_some_and(|a| a.kind == "disconnect" && a.outcome == Outcome::Cancelled) {
                     out.violations.push(viol(
                         "C01",
                         "C01/cancelled-DISCONNECT/handle-keeps-writing",
+                        format!("conn {}: disconnect() cancelled after part of its DISCONNECT was written (offset {}); a second disconnect() started a new DISCONNECT behind it at offset {}", ci.idx, pkt_start, d.out_before),
+                    ));
+                    out.key("cancelled-disconnect-then/disconnect".to_string());
+                } else if was_mid {
+                    out.violations.push(viol(
+                        "C01",
+                        "C01/midpacket/DISCONNECT-inside-partial-packet",
                         format!(
-                            "conn {}: disconnect() cancelled after writing {} byte(s) of DISCONNECT at offset {}; {} then wrote {} more bytes on the same stream",
+                            "conn {}: disconnect() returned Ok after writing {} bytes from offset {}, but no whole DISCONNECT ends there: the packet begun at {} (left by {} {}) was incomplete",
                             ci.idx,
                             d.out_after - d.out_before,
                             d.out_before,
-                            next.kind,
-                            next.out_after - next.out_before
+                            pkt_start,
+                            a.map(|a| a.kind).unwrap_or("?"),
+                            a.map(|a| outcome_class(&a.outcome)).unwrap_or("?")
                         ),
                     ));
-                    out.key(format!("cancelled-disconnect-then/{}", next.kind));
-                    hit = true;
-                }
-            }
-            if hit {
-                judged_upto = judged_upto.min(pkt_start);
-                break;
-            }
-            if matches!(d.outcome, Outcome::Ok(_)) {
-                let ok = s.packets.iter().any(|p| p.end == d.out_after && matches!(p.pkt, CPacket::Disconnect { .. }));
-                if !ok {
+                    out.key(format!("disconnect-inside/{}", a.map(|a| a.kind).unwrap_or("?")));
+                } else {
                     out.violations.push(viol(
                         "C01",
                         "C01/disconnect-ok-without-DISCONNECT",
                         format!("conn {}: disconnect() returned Ok but no complete DISCONNECT ends at offset {}", ci.idx, d.out_after),
                     ));
                 }
+                hit = true;
+            }
+            if was_mid && whole {
+                out.count("disconnect_finished_partial_packet_first", 1);
+            }
+            if d.outcome == Outcome::Cancelled {
+                if let Some(next) = ops_here.iter().find(|o| o.ev_call > d.ev_ret && o.out_after > o.out_before) {
+                    // do the later bytes continue what the cancelled call had begun?
+                    // the last byte the cancelled call wrote must end up inside a complete packet:
+                    // either the packet it was finishing first, or a DISCONNECT with nothing behind it
+                    let x = d.out_after - 1;
+                    let holder = s.packets.iter().find(|p| p.start <= x && x < p.end);
+                    let broken = match holder {
+                        None => true,
+                        Some(p) if matches!(p.pkt, CPacket::Disconnect { .. }) => s.bytes.len() > p.end,
+                        Some(_) => false,
+                    } || disconnect_at.is_some_and(|(_, end)| s.bytes.len() > end);
+                    if broken {
+                        out.violations.push(viol(
+                            "C01",
+                            "C01/cancelled-DISCONNECT/handle-keeps-writing",
+                            format!(
+                                "conn {}: disconnect() cancelled after writing {} byte(s) at offset {}; {} then wrote {} more bytes that do not continue the packet",
+                                ci.idx,
+                                d.out_after - d.out_before,
+                                d.out_before,
+                                next.kind,
+                                next.out_after - next.out_before
+                            ),
+                        ));
+                        out.key(format!("cancelled-disconnect-then/{}", next.kind));
+                        hit = true;
+                    } else {
+                        out.count("cancelled_disconnect_resumed", 1);
+                    }
+                }
+            }
+            if hit {
+                judged_upto = judged_upto.min(pkt_start);
+                break;
             }
         }
         let exempt_from = judged_upto;
